@@ -1167,6 +1167,10 @@ static void RunOnce(Scenario sc /* by value: versions change */, long run_no, in
     } else if (op == "rspver") {
       for (auto& s : sc.stmts) if (s.id == step["s"].num()) ++s.rspver;
       WriteManifest(sc);
+    } else if (op == "verback") {
+      // the command line and response file the statement had at first
+      for (auto& s : sc.stmts) if (s.id == step["s"].num()) { s.ver = 1; s.rspver = 1; }
+      WriteManifest(sc);
     } else if (op == "droplog") {
       unlink((g_scratch + "/.ninja_log").c_str());
     } else if (op == "dropdeps") {
